@@ -9,7 +9,8 @@ TInit == /\ tid \in 1..Len(Traces) /\ l = 2 /\ TLCSet(tid, 1)
          /\ LET h == Traces[tid][1] IN
             /\ cat = h.cat /\ tried = h.tried /\ max = h.max /\ resOn = h.resOn /\ isdep = h.dep
          /\ ro = FALSE /\ log = <<>> /\ cbs = <<>> /\ spos = 0 /\ order = <<>> /\ stopped = FALSE /\ n = 0
-TOp == /\ Is("op") /\ Step /\ Call(Ev.o, isdep, Ev.raised, Ev.calls) /\ UNCHANGED <<n, isdep>>
+TOp == /\ Is("op") /\ Step /\ UNCHANGED <<n, isdep>>
+       /\ IF Ev.bfail THEN ~Ev.raised /\ CallFailing(Ev.o, Ev.calls) ELSE Call(Ev.o, isdep, Ev.raised, Ev.calls)
 TCb == /\ Is("cb") /\ Step /\ AddCallback(Ev.tok) /\ UNCHANGED <<n, isdep>>
 TEnd == /\ Is("end") /\ Step
         /\ Ev.ran = order            \* callbacks (and the result store) that ran, in order
